@@ -196,7 +196,9 @@ def _c07_case(conc, nmax, preemptions, rerun=False):
                      'literal 1 / 2, or an expression evaluating to 1, 2, '
                      'n+1; every item outcome symbolic; completion order: '
                      'FIFO with <= 1 out-of-order delivery; rerun with '
-                     'reset on / off and new outcomes (count <= 2)',
+                     'reset on / off and new outcomes (count <= 2 without '
+                     'concurrency and with concurrency 1, <= 4 with '
+                     'concurrency 2)',
             'thorough': 'item count 0..4, <= 2 out-of-order deliveries, '
                         'rerun with count <= 3'},
     stubs=['minidb', 'QueueRPC', 'FakeScheduler', 'FakeExecutor',
@@ -217,8 +219,11 @@ def c07_e(ctx):
         yield Case(conc, _c07_case(conc, nmax, k),
                    needed=['quiescent', 'empty-list'] +
                    (['throttled'] if conc != 'none' else []))
-    for conc in ('none', 'literal2'):
-        yield Case(conc + '/rerun', _c07_case(conc, ctx.pick(2, 3), 0,
+    for conc in ('none', 'literal1', 'literal2'):
+        # (count > concurrency matters: freed slots must be refilled in
+        # the second pass as well)
+        yield Case(conc + '/rerun', _c07_case(conc, 4 if conc == 'literal2'
+                                              else ctx.pick(2, 3), 0,
                                               rerun=True),
                    needed=['first-run-failed', 'rerun-done'],
                    replay=_strong_partial_rerun)
@@ -226,6 +231,11 @@ def c07_e(ctx):
 
 def _strong_partial_rerun(model, v):
     from vt import kit
-    if not (v.get('signature') or '').endswith(':item-twice'):
+    sig = v.get('signature') or ''
+    if ':literal2:rerun' in sig and model.get('n') == 4:
+        # F27: second pass over 4 items with concurrency 2
+        return kit.run_strong_test('test_c07_rerun_concurrency.py',
+                                   timeout=90)
+    if not sig.endswith(':item-twice'):
         return True, 'n/a'
     return kit.run_strong_test('test_c07_partial_rerun.py', timeout=60)
